@@ -146,7 +146,13 @@ impl Agg {
             *self.extra.entry(k).or_insert(0) += v;
         }
         for v in r.violations {
-            if self.violations.len() < 64 {
+            // keep the first few of every clause (a frequent clause must not crowd out a rare one)
+            let same = self
+                .violations
+                .iter()
+                .filter(|(_, w)| w.clause == v.clause)
+                .count();
+            if same < 8 && self.violations.len() < 512 {
                 self.violations.push((index, v));
             }
         }
@@ -334,7 +340,7 @@ pub struct CheckOutcome {
 pub fn check(prop: &dyn Property, ctx: &Ctx) -> CheckOutcome {
     let t0 = Instant::now();
     let id = prop.id();
-    println!(
+    say!(
         "[{}] tier={} VERIF_SEED={} workers={}",
         id,
         ctx.tier.name(),
@@ -362,7 +368,7 @@ pub fn check(prop: &dyn Property, ctx: &Ctx) -> CheckOutcome {
             .map(|(k, _)| *k)
             .take(5)
             .collect();
-        println!(
+        say!(
             "[{}] HARNESS: determinism slice differs between two executions (streams {:?})",
             id, bad
         );
@@ -405,7 +411,7 @@ pub fn check(prop: &dyn Property, ctx: &Ctx) -> CheckOutcome {
         }
     }
     for l in &known_lines {
-        println!("{}", l);
+        say!("{}", l);
     }
     let replay_dir = format!("{}/replays", ctx.verif_root);
     let _ = std::fs::create_dir_all(&replay_dir);
@@ -425,12 +431,12 @@ pub fn check(prop: &dyn Property, ctx: &Ctx) -> CheckOutcome {
         );
         let env = envelope(id, ctx.seed, index, &mv);
         if let Err(e) = std::fs::write(&path, serde_json::to_string_pretty(&env).unwrap()) {
-            println!("[{}] HARNESS: cannot write replay file {}: {}", id, path, e);
+            say!("[{}] HARNESS: cannot write replay file {}: {}", id, path, e);
             return CheckOutcome { exit_code: 2 };
         }
         // confirm in a fresh process
         let confirmed = confirm_in_fresh_process(&path, id);
-        println!(
+        say!(
             "[{}] violation clause={} scenario={} minimised {}->{} bytes in {} re-executions; fresh-process replay: {}",
             id,
             clause,
@@ -440,9 +446,9 @@ pub fn check(prop: &dyn Property, ctx: &Ctx) -> CheckOutcome {
             execs,
             if confirmed { "reproduced" } else { "NOT reproduced" }
         );
-        println!("[{}]   {}", id, mv.detail.replace('\n', "\n      "));
+        say!("[{}]   {}", id, mv.detail.replace('\n', "\n      "));
         if confirmed {
-            println!("VIOLATION property={} replay={}", id, path);
+            say!("VIOLATION property={} replay={}", id, path);
             new_violations += 1;
             reported.push((clause, path));
         } else {
@@ -521,7 +527,7 @@ pub fn check(prop: &dyn Property, ctx: &Ctx) -> CheckOutcome {
     let _ = std::fs::create_dir_all(format!("{}/evidence", ctx.verif_root));
     merge_and_write_evidence(&ev_path, evidence, "simproc");
 
-    println!(
+    say!(
         "[{}] {} scenario streams, {} simulated runs, {} steps, {} distinct non-trivial, {} distinct interleavings, {:.1}s ({} runs/h)",
         id,
         agg.scenarios,
@@ -532,8 +538,8 @@ pub fn check(prop: &dyn Property, ctx: &Ctx) -> CheckOutcome {
         wall,
         runs_per_hour
     );
-    println!("[{}] faults fired: {:?}", id, agg.faults);
-    println!("[{}] probes: {:?}", id, agg.probes);
+    say!("[{}] faults fired: {:?}", id, agg.faults);
+    say!("[{}] probes: {:?}", id, agg.probes);
 
     if new_violations > 0 {
         return CheckOutcome { exit_code: 1 };
@@ -543,12 +549,12 @@ pub fn check(prop: &dyn Property, ctx: &Ctx) -> CheckOutcome {
     }
     if !agg.harness_errors.is_empty() {
         for e in &agg.harness_errors {
-            println!("[{}] HARNESS: {}", id, e);
+            say!("[{}] HARNESS: {}", id, e);
         }
         return CheckOutcome { exit_code: 2 };
     }
     if !dead.is_empty() {
-        println!("[{}] HARNESS: probes never hit: {:?}", id, dead);
+        say!("[{}] HARNESS: probes never hit: {:?}", id, dead);
         return CheckOutcome { exit_code: 2 };
     }
     CheckOutcome { exit_code: 0 }
@@ -561,7 +567,7 @@ pub fn merge_and_write_evidence(path: &str, ev: Value, engine: &str) {
     out["coverage"]["engines_run"] = json!([engine]);
     let s = serde_json::to_string_pretty(&out).unwrap();
     if let Err(e) = std::fs::write(path, s) {
-        println!("HARNESS: cannot write evidence {}: {}", path, e);
+        say!("HARNESS: cannot write evidence {}: {}", path, e);
     }
 }
 
@@ -590,14 +596,14 @@ pub fn replay_file(props: &[&dyn Property], ctx: &Ctx, path: &str) -> i32 {
     let text = match std::fs::read_to_string(path) {
         Ok(t) => t,
         Err(e) => {
-            println!("HARNESS: cannot read {}: {}", path, e);
+            say!("HARNESS: cannot read {}: {}", path, e);
             return 2;
         }
     };
     let v: Value = match serde_json::from_str(&text) {
         Ok(v) => v,
         Err(e) => {
-            println!("HARNESS: {} is not JSON: {}", path, e);
+            say!("HARNESS: {} is not JSON: {}", path, e);
             return 2;
         }
     };
@@ -606,28 +612,28 @@ pub fn replay_file(props: &[&dyn Property], ctx: &Ctx, path: &str) -> i32 {
     let prop = match props.iter().find(|p| p.id() == id) {
         Some(p) => *p,
         None => {
-            println!("HARNESS: replay file names unknown property {:?}", id);
+            say!("HARNESS: replay file names unknown property {:?}", id);
             return 2;
         }
     };
     match prop.replay(ctx, &v["scenario"]) {
         Err(e) => {
-            println!("HARNESS: cannot execute replay: {}", e);
+            say!("HARNESS: cannot execute replay: {}", e);
             2
         }
         Ok(None) => {
-            println!("[{}] replay of {} holds (no violation)", id, path);
+            say!("[{}] replay of {} holds (no violation)", id, path);
             0
         }
         Ok(Some(nv)) => {
-            println!("[{}] replay: clause={} {}", id, nv.clause, nv.detail);
+            say!("[{}] replay: clause={} {}", id, nv.clause, nv.detail);
             if nv.clause != clause {
-                println!(
+                say!(
                     "[{}] note: stored clause was {:?}, observed {:?}",
                     id, clause, nv.clause
                 );
             }
-            println!("VIOLATION property={} replay={}", id, path);
+            say!("VIOLATION property={} replay={}", id, path);
             1
         }
     }
